@@ -696,6 +696,11 @@ pub enum Op {
     LowLevel { r: u8, kind: u8, id: u8, content: J },
     /// composite: `from` commits, `r` melds + refreshes from it, edits and commits (yields merge blocks)
     MergeCommit { r: u8, from: u8, edit: Vec<EditStep> },
+    /// composite: n successive small updates of the root object (revision indices >= 10 / >= 100),
+    /// optionally each followed by a commit (block indices >= 10)
+    Churn { r: u8, n: u8, commit_each: bool },
+    /// commit while the backend rejects the k-th write of that commit (0 = first write)
+    FaultyCommit { r: u8, k: u8, info: Option<Vec<(String, J)>> },
 }
 
 impl Op {
@@ -716,6 +721,8 @@ impl Op {
             Op::TimeTravel { .. } => "timetravel",
             Op::LowLevel { .. } => "lowlevel",
             Op::MergeCommit { .. } => "mergecommit",
+            Op::Churn { .. } => "churn",
+            Op::FaultyCommit { .. } => "faultycommit",
         }
     }
 }
@@ -738,6 +745,8 @@ pub struct Mix {
     pub timetravel: u32,
     pub lowlevel: u32,
     pub mergecommit: u32,
+    pub churn: u32,
+    pub faultycommit: u32,
     pub rich: bool,
     pub rich_info: bool,
 }
@@ -760,6 +769,8 @@ impl Default for Mix {
             timetravel: 1,
             lowlevel: 0,
             mergecommit: 2,
+            churn: 1,
+            faultycommit: 0,
             rich: false,
             rich_info: false,
         }
@@ -796,6 +807,13 @@ pub fn op(m: &Mix) -> BoxedStrategy<Op> {
         m.lowlevel,
         (r, 0u8..4, 0u8..6, jlight()).prop_map(|(r, kind, id, content)| Op::LowLevel { r, kind, id, content }).boxed(),
     );
+    add(
+        m.churn,
+        (r, prop_oneof![4 => 9u8..14, 1 => 99u8..104], prop::bool::weighted(0.3))
+            .prop_map(|(r, n, commit_each)| Op::Churn { r, n: if commit_each { n.min(13) } else { n }, commit_each })
+            .boxed(),
+    );
+    add(m.faultycommit, (r, 0u8..2, jinfo(false)).prop_map(|(r, k, info)| Op::FaultyCommit { r, k, info }).boxed());
     add(m.mergecommit, (r, any::<u8>(), edit(m.rich)).prop_map(|(r, from, edit)| Op::MergeCommit { r, from, edit }).boxed());
     proptest::strategy::Union::new_weighted(alts).boxed()
 }
